@@ -91,6 +91,8 @@ Definition sk_to_public (k : privkey) : bytes :=
 Definition sk_sign (k : privkey) (m : bytes) : bytes :=
   match k with SkNormal b => ed_sign P b m | SkExtended b => ed_sign_ext P b m end.
 Definition pk_verify (pk m sg : bytes) : bool := ed_verify P pk m sg.
+(* PublicKey::hash = Ed25519KeyHash::from(blake2b224(as_bytes)) *)
+Definition pk_hash (pk : bytes) : bytes := blake2b224 P pk.
 
 (* ---- Bip32PrivateKey / Bip32PublicKey (96 = extended secret 64 ++ chain code 32; 64 = public key 32 ++ chain code 32) ---- *)
 Definition xprv_from_bytes (bs : bytes) : result bytes := kt_from_binary T_xprv bs.
